@@ -20,12 +20,14 @@ SPEC = dict(
               'compositions, contracts/seqcomp.py; mass side: mass(), contracts/masssum.py; labelled peptides: mass() IS the composition mass) + '
               'ground obligations linking the mass tables to the composition tables + bounded end-to-end relational check (labelled stand-in) for '
               'the glue of comp_mass and the per-modification link',
-    contracts=['masssum', 'seqcomp'], targets={'masssum': ['peptacular.mass_calc:mass']},
+    contracts=['masssum', 'seqcomp', 'averagine'], targets={'masssum': ['peptacular.mass_calc:mass']},
     ground=[dict(module='ground.c03_tables')],
     bounded=[dict(name='C03-bounded', script='bounded/C03.py')],
     replay_finder='bounded/C03.py',
     explanation='ground obligations on the two ion-offset representations + bounded relational check; see level_text',
-    proved_clauses=['comp(): with no residual mass shift it returns the composition of comp_mass itself; with one it raises unless estimation is asked for, '
+    proved_clauses=['estimate_comp (no labels): exactly the averagine elements, each ratio x mass / averagine mass (contracts/averagine.py); the averagine mass '
+                    'is the monoisotopic mass of the ratios (ground obligation) -- together: the estimate of a residual m weighs m',
+                    'comp(): with no residual mass shift it returns the composition of comp_mass itself; with one it raises unless estimation is asked for, '
                     'and otherwise the weighted total of the result == total of that composition + total of the averagine estimate of the residual '
                     '(entries ADDED, for any weighting) -- contracts/seqcomp.py',
                     'per-part link for the TABLES (ground, exact rational arithmetic on the real tables of this run, 84 obligations): each residue mass '
